@@ -53,6 +53,33 @@ macro_rules! gh_grid {
                 match r { Ok(h) => { expect_eq($cx, "C07|GenericHash::finalize|mismatch_vs_libsodium", &h, &want_keyed, case); }
                           Err(e) => { $cx.violation("C07|GenericHash::finalize|unexpected_err", json!({"err":e.to_string(),"K":$k,"O":$o})); } }
             }
+            // Vec key container longer than KEY_LENGTH (the whole slice is the key, as in libsodium with keylen = len):
+            // one-shot, one-shot to Vec and incremental must all use every byte of it
+            if $k < 64 {
+                let klen = core::cmp::min(64, $k + 1 + ($input.len() % 16));
+                let key_long: Vec<u8> = $key64[..klen].to_vec();
+                let want_long = na::generichash($o, $input, Some(&key_long)).unwrap();
+                let case_l = || json!({"op":"GenericHash(longer Vec key)","K":$k,"O":$o,"keylen":klen,"input":hx($input),"key":hx(&key_long)});
+                if let Some(r) = call($cx, "C07|GenericHash::hash(longer Vec key)", "GenericHash::hash", case_l,
+                    || GenericHash::<$k, $o>::hash::<_, Vec<u8>, StackByteArray<$o>>($input, Some(&key_long))) {
+                    match r { Ok(h) => { expect_eq($cx, "C07|GenericHash::hash|longer_vec_key|mismatch_vs_libsodium", h.as_slice(), &want_long, case_l); }
+                              Err(e) => { $cx.violation("C07|GenericHash::hash|longer_vec_key|unexpected_err", json!({"err":e.to_string(),"K":$k,"O":$o,"keylen":klen})); } }
+                }
+                if let Some(r) = call($cx, "C07|GenericHash::hash_to_vec(longer Vec key)", "GenericHash::hash_to_vec", case_l,
+                    || GenericHash::<$k, $o>::hash_to_vec::<_, Vec<u8>>(&$input.to_vec(), Some(&key_long))) {
+                    match r { Ok(h) => { expect_eq($cx, "C07|GenericHash::hash_to_vec|longer_vec_key|mismatch_vs_libsodium", &h, &want_long, case_l); }
+                              Err(e) => { $cx.violation("C07|GenericHash::hash_to_vec|longer_vec_key|unexpected_err", json!({"err":e.to_string(),"K":$k,"O":$o,"keylen":klen})); } }
+                }
+                if let Some(r) = call($cx, "C07|GenericHash::new(longer Vec key)+update+finalize", "GenericHash::finalize", case_l, || {
+                    let mut h = GenericHash::<$k, $o>::new(Some(&key_long))?;
+                    h.update($input);
+                    h.finalize::<[u8; $o]>()
+                }) {
+                    match r { Ok(h) => { expect_eq($cx, "C07|GenericHash::finalize|longer_vec_key|mismatch_vs_libsodium", &h, &want_long, case_l); }
+                              Err(e) => { $cx.violation("C07|GenericHash::finalize|longer_vec_key|unexpected_err", json!({"err":e.to_string(),"K":$k,"O":$o,"keylen":klen})); } }
+                }
+                $cx.cover("generichash_object_longer_vec_key", &format!("K{}len{}", $k, klen));
+            }
             $cx.cover("generichash_object_params", &format!("K{}O{}", $k, $o));
         }
         )*
